@@ -21,6 +21,17 @@ out = ["<!-- BEGIN GENERATED -->",
        "`lean/TorrentVerif/Props/Cxx.lean`.", ""]
 for pid in sorted(by):
     out.append(f"* **{pid}** ({len(by[pid])}): " + ", ".join(f"`{t}`" for t in sorted(by[pid])))
+gpath = os.path.join(HERE, "build", "gen_status.json")
+if os.path.exists(gpath):
+    gen = json.load(open(gpath))["status"]
+    n = sum(len(v["theorems"]) for v in gen.values())
+    out += ["", f"Translator tie (§6a): {n} further theorems about the definitions translated from "
+            "/repo's current source (`lean/Gen/Tie/<function>.lean`; same axiom audit):", ""]
+    for fn in sorted(gen):
+        st = gen[fn]
+        out.append(f"* `{fn}` (source digest {st['digest']}, tie "
+                   f"{'checked' if st['ok'] else 'BROKEN: ' + st['stage']}): "
+                   + ", ".join(f"`{t.replace('Gen.', '')}`" for t in st["theorems"]))
 out += ["", "## 14. Seeded changes and which checks catch them (generated)", "",
         "Independent sub-agents, given only the text of one property and a scratch worktree, "
         "wrote changes to torrentfile that break the property while the unedited suite still "
